@@ -93,6 +93,7 @@ func scenarioProxySched(c *vrun.Ctx) {
 		var version int
 		var preLog int
 		var evicted bool
+		var evictedAt int
 		var overwriter *vnet.Resp
 		var originAnswered, policyDone, laterContacts int
 		body := func() {
@@ -200,13 +201,14 @@ func scenarioProxySched(c *vrun.Ctx) {
 			if p.AdvanceS > 0 {
 				vsched.GoHarness("clock", func() { vtime.Advance(time.Duration(p.AdvanceS) * time.Second) })
 			}
-			evicted = false
+			evicted, evictedAt = false, 0
 			switch p.Evictor {
 			case "delete":
 				vsched.GoHarness("evictor", func() {
 					req := mustRequest(raw)
 					if err := env.p.cache.Delete(cache.MakeFromRequest(req)); err == nil {
 						evicted = true
+						evictedAt = vsched.Stamp()
 					}
 				})
 			}
@@ -279,6 +281,15 @@ func scenarioProxySched(c *vrun.Ctx) {
 			// receive", and the one fetch is still the only one)
 			// (an empty body is storable on the memory backend only: the file backend refuses it by design, which
 			// makes the answer "turn out not to be cacheable" there, and then every client fetches for itself)
+			// (only when the removal was complete before the origin answered the revalidation: an entry removed
+			// after its renewal, between the shared fetch and a client's re-opening of it, costs that client a
+			// fetch of its own, which is the fall-back C09 asks for)
+			if p.Prop == "C05" && p.Outcome == "cacheable" && p.Evictor != "" && p.Overwrite == "" && evicted && originAnswered != 0 && evictedAt < originAnswered && nreq > 2 {
+				// the stale entry is removed (cleanup cycle, eviction, delete) while it is being revalidated: the
+				// origin's 304 has nothing left to renew, so the resource is fetched in full - once, for all
+				// of them ("a single origin fetch"): one revalidation and at most one full fetch
+				c.Violation("C05/"+p.Name+"/origin-fetch-count", fmt.Sprintf("%d clients asking for the same %s resource, whose entry was removed during the revalidation, caused %d origin requests, expected at most 2 (the revalidation and one full fetch): %s", p.Clients, p.Start, nreq, logSummary(originLog[preLog:])), x)
+			}
 			if p.Prop == "C05" && (p.Outcome == "cacheable" || (p.Outcome == "empty-body" && p.Backend == "memory")) && p.Evictor == "" && p.Overwrite == "" {
 				want := 1
 				if p.Start == "fresh" {
